@@ -18,6 +18,19 @@ variable (d : Desc) (lg : Bool) (pk : Bytes → Option Json)
 theorem omitted_is_empty_prim (k : PrimK) (hk : k ≠ .bit) : readPrimJ k none = readPrimJ k (some (emptyPrimJ k)) :=
   readPrimJ_nil_eq_empty k hk
 
+/-- **omitted_is_empty** (struct members): inside any struct object, an absent plain field (unmasked, no nat arguments, not
+true-typed) may be given explicitly with a value `ej` that its reader maps to the zero value: the struct reader returns the same
+result. `rj` is the field reader (`readJson d lg pk fuel` in `readJson`). -/
+theorem omitted_is_empty_member (fuel : Nat) (rj : Rj) (s : StructD) (params : List Nat) (kvs : List (Bytes × Json))
+    (k : Bytes) (ej : Json) (hc : countKey k kvs = 0) (hfield : (findField s k s.fields 0).isSome = true)
+    (H : ∀ f ∈ s.fields, strBytes f.name = k → fieldOmitted s f = false → f.plain ∧ rj f.ty [] (some ej) = zeroVal d fuel f.ty) :
+    readStructJ d fuel rj s params kvs = readStructJ d fuel rj s params (kvs ++ [(k, ej)]) :=
+  readStructJ_omitted_empty d fuel rj s params kvs k ej hc hfield H
+
+/-- the explicit empty value of every primitive (`0`, `""`, `false`) is such an `ej` -/
+theorem omitted_is_empty_prim_value (ty : Nat) (k : PrimK) (hd : d.get? ty = some (.prim k)) (hk : k ≠ .bit) :
+    EmptyOf d ty (emptyPrimJ k) := emptyOf_prim d ty k hd hk
+
 /-- **omitted_is_empty** (structs): an omitted struct reads exactly like `{}`. -/
 theorem omitted_is_empty_struct (fuel ty : Nat) (params : List Nat) (s : StructD) (hd : d.get? ty = some (.struct s))
     (ht : (s.isTypedef || s.isUnwrap) = false) :
@@ -170,7 +183,8 @@ theorem dict_as_pairs_rejected (fuel ty : Nat) (params : List Nat) (a : ArrayD) 
 /-! ## umbrella -/
 
 /-- **alt_equiv**: `AltForm d ty j j'` is the inductive closure of the documented rewrites (numbers as decimal strings, enums as
-objects / unions as type strings, member order of union objects, Maybe with or without `"ok"`, `{"ok":false}` ≡ `{}`) under
+objects / unions as type strings, member order of union objects, Maybe with or without `"ok"`, `{"ok":false}` ≡ `{}`, omitted
+plain fields given explicitly as their empty value) under
 reflexivity, symmetry, transitivity and every JSON context (typedef wrappers, array elements, struct members, union and Maybe
 values). Related trees are read identically — same value or same error — for every schema, fuel and nat arguments. -/
 theorem alt_equiv {ty : Nat} {j j' : Json} (h : AltForm d ty j j') :
@@ -202,6 +216,16 @@ example : AltForm dEx 2 (.obj [(strBytes "y", .num ['5'])]) (.obj [(strBytes "y"
       rcases hf with rfl | rfl
       · exact absurd hk (by decide)
       · exact .numberAsString 1 .u32 ['5'] rfl rfl (by decide))
+
+/-- omitted field `x:float` given explicitly as `0` -/
+example : AltForm dEx 2 (.obj [(strBytes "y", .num ['5'])]) (.obj ([(strBytes "y", .num ['5'])] ++ [(strBytes "x", .num ['0'])])) :=
+  .omittedEmpty 2 _ _ (strBytes "x") _ rfl rfl rfl rfl
+    (by
+      intro f hf hk _
+      simp at hf
+      rcases hf with rfl | rfl
+      · exact ⟨⟨rfl, rfl, rfl, rfl⟩, emptyOf_prim dEx 0 .f32 rfl (by decide)⟩
+      · exact absurd hk (by decide))
 
 example : readJson dEx false parseJson 4 2 [] (some (.obj [(strBytes "y", .str (strBytes "5")), (strBytes "z", .num ['1'])])) = .error .rej := by rfl
 example : readJson dEx false parseJson 4 2 [] (some (.obj [(strBytes "y", .str (strBytes "5"))])) = .ok (.struct [some (.nat 0), some (.nat 5)]) := by rfl
